@@ -26,9 +26,9 @@ LEVEL = 'model_checking'
 ENGINE = 'E2-bfs'
 RULE = (
     'BFS over histories of {new(slot,variant), call(slot,method,args; positional and keyword spellings), drop(slot), '
-    'copy(slot 0 -> slot 1 with the other variant\'s data), gc, flood(130 objects)}; probe class with weak_lru_cache(maxsize=2): 2 slots depth 7 and 3 slots depth 5 (quick: '
+    'copy(slot 0 -> slot 1 with the other variant\'s data), gc, flood(130 objects)}; probe class with weak_lru_cache(maxsize=2): 2 slots depth 6 and 3 slots depth 5 (quick: '
     '6/4); real classes Transitions, Jumps, TrajectoryMetrics (and the Collective returned by Jumps.collective), call menu = '
-    'listed methods + every further method found memoised on the tree under test: 2 slots depth 4 (thorough 5; the split-based statistics of Jumps only in the thorough tier); Jumps objects of a variant share one Transitions and differ in minimal_residence; metrics objects also through Trajectory.metrics(); state = (slot contents and origin new/copy, calls made, cache_info of every cache)'
+    'listed methods + every further method found memoised on the tree under test: 2 slots depth 4 (thorough 5 for Transitions and metrics, 4 for Jumps with the full menu; the split-based statistics of Jumps only in the thorough tier); Jumps objects of a variant share one Transitions and differ in minimal_residence; metrics objects also through Trajectory.metrics(); state = (slot contents and origin new/copy, calls made, cache_info of every cache)'
     '; menus include calls with the same value under different keyword names and calls that raise; memoised methods are recognised by the wrapper defined in gemdat/caching.py (functools.lru_cache statistics are part of the state only when present)'
 )
 LEVEL_TEXT = (
@@ -41,7 +41,7 @@ LEVEL_NOTE = 'Trusted: CPython reference counting/gc semantics; deep equality he
 TECHNIQUE = 'explicit-state BFS over object life-cycle histories on real objects and the real decorator'
 ASSUMPTIONS = ['single-threaded use (GEMDAT starts no threads)']
 
-DEPTHS = {'quick': {'probe2': 5, 'probe3': 4, 'real': 4}, 'thorough': {'probe2': 7, 'probe3': 5, 'real': 5}}
+DEPTHS = {'quick': {'probe2': 5, 'probe3': 4, 'real': 4}, 'thorough': {'probe2': 6, 'probe3': 5, 'real': 5, 'realJ': 4}}  # Jumps: 12 calls of 5-20 ms each, depth 5 does not finish within the cap
 CAPS = {'thorough': 2400}
 
 
@@ -479,7 +479,7 @@ def shards(tier, seed):
         for first in (('new', 0, 0), ('new', 0, 1)):
             for second in range(len(calls_of('real', cls)) + 1):
                 for third in range(3 if cls == 'J' else 1):
-                    out.append({'kind': 'real', 'cls': cls, 'nslots': 2, 'depth': d['real'], 'root': list(first), 'second': second, 'third': third, 'nthird': 3 if cls == 'J' else 1, 'tier': tier})
+                    out.append({'kind': 'real', 'cls': cls, 'nslots': 2, 'depth': d.get('real' + cls, d['real']), 'root': list(first), 'second': second, 'third': third, 'nthird': 3 if cls == 'J' else 1, 'tier': tier})
     return out
 
 
